@@ -433,3 +433,59 @@ for r in range(0, 5):
         c.native = False
         c.interp_flags = {"class_call_models": {SC.SequentialContext: lambda it, args, kw: SObj(SC.SequentialContext, f_args=list(args), f_kw=dict(kw))}}
         con.cases.append(c)
+
+
+# ---- std.Reset: the object itself (truth value, active-high / active-low view) ----------------------------------------------
+# For the wrapped signal s and the declared polarity: the reset is ACTIVE iff (s == '0' if active_low else s == '1'); `bool(reset)`
+# is that, active_high_signal() is a signal that is '1' exactly while the reset is active, active_low_signal() one that is '0'
+# exactly while it is active -- inside a synthesizable context (expression) and outside of one (a new signal driven concurrently).
+class _RSig:
+    """Bit signal with symbolic level f_b (True = '1')"""
+
+
+_RSig.__bool__ = lambda self: True
+_RSig.__invert__ = lambda self: None
+I.register_model(_RSig.__bool__, lambda it, self: self.fields["f_b"])
+I.register_model(_RSig.__invert__, lambda it, self: SObj(_RSig, f_b=sym.Not(self.fields["f_b"])))
+
+
+def reset_obj_spec(method, active_low):
+    def spec(sx, self):
+        it = sx.it
+        level = it.reset_level  # True = the wrapped signal is '1'
+        active = sym.Not(level) if active_low else level
+
+        def holds(res):
+            if method == "__bool__":
+                return sym.eq(active, res) if isinstance(res, bool) or sym.is_sym(res) else False  # decided under the path condition
+            want = active if method == "active_high_signal" else sym.Not(active)
+            if isinstance(res, SObj) and res.kind is _RSig:
+                got = res.fields["f_b"]
+            elif isinstance(res, SObj) and res.kind is _CSig and isinstance(res.fields.get("next"), SObj):
+                got = res.fields["next"].fields["f_b"]  # a new signal, driven by a concurrent assignment
+            else:
+                return False
+            return sym.eq(got, want)
+
+        return C.Pred(holds, f"{method}: level of the result as a function of 'reset is active'")
+
+    return spec
+
+
+for method in ("__bool__", "active_high_signal", "active_low_signal"):
+    con = contract(f"cohdl.std._context:Reset.{method}", PROPS)
+    for active_low in (False, True):
+        for in_context in ((True,) if method == "__bool__" else (True, False)):
+            def mk(env, active_low=active_low):
+                return SObj(SC.Reset, _signal=SObj(_RSig, f_b=None), _active_low=active_low, _is_async=False)
+
+            c = Case(f"active_low={active_low},{'synthesizable-context' if in_context else 'outside'}", [Built([], mk, lambda a: "<reset>", lambda a: None)], reset_obj_spec(method, active_low))
+            c.native = False
+            c.models = [(SC.concurrent, _concurrent), (SC.evaluated, (lambda v: lambda it: v)(in_context))]
+
+            def setup(it, ctx, args, env):
+                it.reset_level = ctx.fresh_bool("reset_signal_is_1")
+                args[0].fields["_signal"].fields["f_b"] = it.reset_level
+
+            c.setup = setup
+            con.cases.append(c)
